@@ -57,7 +57,7 @@ def _cfg(name, **subst):
 def design_jobs(rep):
     """all design-level TLC runs: name -> (module, cfg text, kwargs)"""
     thorough = rep.tier == 'thorough'
-    draw = dict(MaxDraw=5 if thorough else 4)
+    draw = dict(MaxDraw=6 if thorough else 4)
     if thorough:
         draw['MaxIters'] = '{1, 2, 3, 99}'
     retry = dict(MaxRetrySet='{0, 1, 2}', MaxCalls=7)
@@ -99,6 +99,8 @@ def design_check(rep, results):
     # spec mutant, decided by TLC: CertNow is evaluated by TLC in every terminal state of the as-written variants
     for name in ('solver', 'step'):
         aw = [b for b in results[name].emitted if not b['conf']['rep']]
+        if any(not b['cert'] or b['outcome'] == 'StopIteration' for b in results[name].emitted if b['conf']['rep']):
+            raise RuntimeError('the demanded design {} emitted an uncertified behaviour'.format(name))
         if not any(not b['cert'] for b in aw):
             raise RuntimeError('vacuity: no behaviour of the as-written variant of {} fails Certified/Advance'.format(name))
     if any(not b['cert'] for b in results['step'].emitted if b['conf']['rep']):
@@ -116,39 +118,58 @@ def design_check(rep, results):
     rep.extra['design_level_counterexamples'] = {k: results[k].violated for k in results if k.endswith('_mutant')}
 
 
+def _conforms(b, o):
+    return (o['outcome'] == b['outcome'] and o.get('consumed') == len(b['draws'])
+            and (o['outcome'] != 'return' or o['cert'] == b['cert'])
+            and (b['conf']['m'] == 'direct' or o['outcome'] == 'ValueError' or o['niter'] == b['iiter']))
+
+
 def replay_protocol(rep, behaviours):
-    """S->C for Solver.tla"""
+    """S->C for Solver.tla: every as-written behaviour is replayed; the code must reproduce it, or behave as the
+    demanded design does on the draws it consumed"""
+    ckey = lambda b: tuple(sorted((k, v) for k, v in b['conf'].items() if k != 'rep'))
+    dkey = lambda b, n=None: (ckey(b), tuple(map(tuple, b['draws'][:n])))
+    demanded = {}      # the demanded design is nondeterministic: several behaviours may share the same draws
+    for b in behaviours:
+        if b['conf']['rep']:
+            demanded.setdefault(dkey(b), []).append(b)
     nrep = 0
     repaired = 0
-    for i, b in enumerate(behaviours):
+    sample = None
+    for i, b in enumerate(b for b in behaviours if not b['conf']['rep']):
         conf = b['conf']
         o = c14_proto.replay(b, variant=i)
         nrep += 1
-        rep.case(('proto', conf['m'], conf['tol'], conf['miniter'], conf['maxiter'], conf['lmode'], tuple(map(tuple, b['draws']))), nontrivial=len(b['draws']) >= 2)
+        rep.case(('proto', ckey(b), tuple(map(tuple, b['draws']))), nontrivial=len(b['draws']) >= 2)
         condemned = (not b['cert']) or b['outcome'] not in ERRORS + ('return', 'ValueError')
-        same = (o['outcome'] == b['outcome'] and not o.get('unconsumed')
-                and (o['outcome'] != 'return' or o['cert'] == b['cert'])
-                and (conf['m'] == 'direct' or o['outcome'] == 'ValueError' or o['niter'] == b['iiter']))
         data = dict(model=b, observed=o)
-        if same:
+        if len(b['draws']) == 3 and sample is None:
+            sample = b
+        if _conforms(b, o):
             if condemned:
                 key = b['why'] if b['outcome'] == 'return' else 'System.solve:raises-' + b['outcome']
                 rep.violation(key, 'System.solve(method={}) {}: model (code as written) and real code agree on a behaviour the property forbids'.format(
                     conf['m'], 'returns an uncertified answer through ' + b['why'] if b['outcome'] == 'return' else 'raises ' + b['outcome']), data)
             else:
                 rep.traces += 1
+            continue
+        ds = demanded.get(dkey(b, o.get('consumed')), []) if o['outcome'] != 'mismatch' else []
+        if any(_conforms(d, o) for d in ds):
+            repaired += 1       # a behaviour of the demanded design (Certified / NoSilent are its invariants)
+            rep.traces += 1
         elif condemned and o['outcome'] in ERRORS + ('mismatch',):
             repaired += 1       # the code does not return where the as-written model returns uncertified: what the property demands
             rep.traces += 1
         else:
             rep.violation('proto-replay:{}:{}->{}'.format(conf['m'], b['outcome'], o['outcome'] if o['outcome'] != b['outcome'] else
-                                                        ('cert' if o['outcome'] == 'return' and o.get('cert') != b['cert'] else 'iterations' if not o.get('unconsumed') else 'draws')),
-                          'real code deviates from Solver.tla: model predicts {} after {} iterations (certified={}), code: {} after {} (certified={}) {}'.format(
-                              b['outcome'], b['iiter'], b['cert'], o['outcome'], o['niter'], o.get('cert'), o['detail']), data)
+                                                        ('cert' if o['outcome'] == 'return' and o.get('cert') != b['cert'] else
+                                                         'iterations' if o.get('consumed') == len(b['draws']) else 'draws')),
+                          'real code deviates from Solver.tla: model predicts {} after {} iterations (certified={}), code: {} after {} (certified={}, {} of {} draws) {}'.format(
+                              b['outcome'], b['iiter'], b['cert'], o['outcome'], o['niter'], o.get('cert'), o.get('consumed'), len(b['draws']), o['detail']), data)
     rep.extra['protocol_behaviours_replayed'] = nrep
-    rep.extra['protocol_behaviours_code_stricter_than_as_written_model'] = repaired
-    if behaviours:
-        rep.sample(dict(kind='Solver.tla behaviour replayed on System.solve', **{k: behaviours[len(behaviours) // 2][k] for k in ('conf', 'draws', 'outcome', 'iiter', 'cert')}))
+    rep.extra['protocol_behaviours_code_follows_demanded_design'] = repaired
+    if sample:
+        rep.sample(dict(kind='Solver.tla behaviour replayed on System.solve', **{k: sample[k] for k in ('conf', 'draws', 'outcome', 'iiter', 'cert')}))
 
 
 def replay_steps(rep, ascoded, demanded, nvariants):
@@ -207,8 +228,9 @@ def run(rep):
         jobs = design_jobs(rep)
         futs = {name: ex.submit(run_job, (name, job)) for name, job in jobs.items()}
         # ---- 2. C->S: real systems solved while TLC is busy; validated by TraceSolver in parallel batches
-        ntr = 150 if tier == 'quick' else 3000
+        ntr = 150 if tier == 'quick' else 5000
         traces = [c14_trace.special_case(*s) for s in special_traces()]
+        traces += [c14_trace.special_linesearch(bk[0], api) for api in ('System.solve', 'legacy')]
         for i in range(ntr):
             traces.append(c14_trace.run_case(rng, rng.choice(bk)))
         batch = 100 if tier == 'quick' else 500
@@ -216,13 +238,13 @@ def run(rep):
         tfuts = [ex.submit(c14_trace.validate_run, part, 'c14-trace-{}'.format(k)) for k, part in enumerate(parts)]
         lap('trace_generation')
         # ---- 3. S->C: linear solves with constraints, drop tolerance, projection
-        c14_lin.run(rep, rng, 45 if tier == 'quick' else 600, tier)
+        c14_lin.run(rep, rng, 45 if tier == 'quick' else 800, tier)
         lap('linsolve')
         results = {name: f.result() for name, f in futs.items()}
         design_check(rep, results)
         lap('design_tlc_wait')
         # ---- 4. S->C: protocol behaviours on the real System.solve / methods / Matrix._solver
-        replay_protocol(rep, [b for b in results['solver'].emitted + results['solver_deep'].emitted if not b['conf']['rep']])
+        replay_protocol(rep, results['solver'].emitted + results['solver_deep'].emitted)
         lap('protocol_replay')
         # ---- 5. S->C: time step bisection
         replay_steps(rep, [b for b in results['step'].emitted if not b['conf']['rep']], [b for b in results['step'].emitted if b['conf']['rep']], 2 if tier == 'quick' else 18)
